@@ -217,6 +217,22 @@ def gen_case(rng, kind, big=False, allow_known=False):
         rand_put_get(rng, u, ops, 2 * nops, bad=False)
         ops += ["C", "O %d" % cap]
         rand_put_get(rng, u, ops, nops, bad=False)
+    elif kind == "exactcap":
+        # an item whose file is exactly as long as the capacity: it is stored, survives a re-open and is replaced by the next put
+        k = rng.randrange(len(u.keys))
+        s, e = u.rand_range(rng, k)
+        cap = u.item_len(k, s, e)
+        ops.append("O %d" % cap)
+        ops += ["P %d %d %d" % (k, s, e), "G %d %d %d" % (k, s, e), "C", "O %d" % cap, "G %d %d %d" % (k, s, e)]
+        k2 = rng.randrange(len(u.keys))
+        s2, e2 = u.rand_range(rng, k2, 2)
+        ops += ["P %d %d %d" % (k2, s2, e2), "G %d %d %d" % (k, s, e), "C", "O %d" % cap]
+        rand_put_get(rng, u, ops, 3, maxw=2, bad=False)
+        # the property's premise: no single item is larger than the capacity
+        def fits(o):
+            t = o.split()
+            return t[0] != "P" or u.item_len(int(t[1]), int(t[2]), int(t[3])) <= cap
+        ops = [o if fits(o) else "G" + o[1:] for o in ops]
     elif kind == "capchange":
         cap = rng.choice([3 * mx, 5 * mx])
         ops.append("O %d" % cap)
@@ -299,7 +315,7 @@ def gen_case(rng, kind, big=False, allow_known=False):
     return " | ".join(ops)
 
 
-RACE_SHAPES = ["stale_get_vs_subsuming_put", "damaged_entry_two_gets", "identical_puts", "put_vs_put_nested", "get_vs_evicting_put", "deleted_file_two_gets"]
+RACE_SHAPES = ["stale_get_vs_subsuming_put", "damaged_entry_two_gets", "identical_puts", "put_vs_put_nested", "get_vs_evicting_put", "deleted_file_two_gets", "deleted_last_item_two_gets"]
 
 
 def gen_race(rng, shape, sched):
@@ -335,6 +351,11 @@ def gen_race(rng, shape, sched):
         progs = ["G,0,1,5", "P,0,9,12"]
     elif shape == "deleted_file_two_gets":
         pre = ["P 0 1 5", "P 0 7 9"]
+        mid = ["DD 0 0"]
+        progs = ["G,0,1,5", "G,0,1,3"]
+    elif shape == "deleted_last_item_two_gets":
+        # the key's only entry: the first remove takes the key out of the map, the second finds neither entry nor key
+        pre = ["P 0 1 5"]
         mid = ["DD 0 0"]
         progs = ["G,0,1,5", "G,0,1,3"]
     else:
